@@ -12,6 +12,7 @@ from __future__ import annotations
 import ast
 
 from ..cachesim import CacheSim
+from ..rawreads import raw_reads
 from ..cfg import CFG
 from ..effects import Effects
 from ..index import Index
@@ -133,6 +134,7 @@ def check(run):
     run.rule("R4", "query structures about a mesh (ray, proximity) are keyed on the mesh hash or read only mesh properties")
     run.rule("R5", "normals are carried across a transform only by the function's own store, guarded by presence in the cache and the rotation test")
     run.rule("R6", "companion keys: a key whose getter relies on a by-product store of another producer is kept or dropped together with it")
+    run.rule("R7", "memo entries are read from the raw dict (`x._cache.cache`) only after that cache was verified in the same function, with no write of x's hashed data in between")
 
     T = ix.cls("trimesh.base.Trimesh")
     fps = producer_footprints(ix, ef, T)
@@ -263,6 +265,9 @@ def check(run):
                               f"cache lock and {sorted(written)} was already written inside it",
                               key=key_of("C01-R2b", f.qualname, k))
     run.floor("Trimesh-family surgery functions", n_surgery, 4)
+
+    # ------------------------------------------------------------------ R7 raw reads of memo dicts, repo-wide
+    raw_reads(run, ix, ef, 'R7', 'C01', floor=6)
 
     # ------------------------------------------------------------------ R5 transport guard in apply_transform
     _transport_guard(run, ix)
